@@ -862,7 +862,9 @@ static void real_pool_cases(const char* name, Rng& g, bool thorough)
                 if (threw != (k >= 0))
                     fail(fmt("%s: allocate_unique<T[]>(%zu) failing at %ld: exception %s", name, n, k, threw ? "unexpected" : "lost"));
                 std::size_t cap1 = pool.capacity_left(), nodes1 = drainable();
-                if (cap1 != cap0 || nodes1 != nodes0)
+                // (an array request on a fragmented list may make the pool take another block: more capacity afterwards is
+                // fine, less means memory was lost by the rollback / release)
+                if (cap1 < cap0 || nodes1 < nodes0)
                     fail(fmt("%s: after allocate_unique<T[]>(%zu) %s the pool offers %zu nodes / capacity_left %zu, before %zu / %zu (node size %zu)",
                              name, n, k >= 0 ? fmt("with a constructor failure at %ld", k).c_str() : "and reset()", nodes1, cap1, nodes0, cap0, ns));
             }
